@@ -186,7 +186,9 @@ Record peer := {
   p_up : bool;              (* a TLS (QUIC) server answers at the address and completes handshakes it can *)
   p_alpn : list bytes;      (* the server's ALPN list *)
   p_host : bytes;           (* host part of the connection's remote address *)
-  p_stream : bytes          (* everything the server sends before it closes or drops the connection *)
+  p_stream : bytes          (* everything the server sends before it closes or drops the connection, or, over TLS, before
+                               the deadline of the exchange passes (commit 59cf705: min(context deadline, 5 s after the
+                               request); a read after it is an I/O error like a truncated stream) *)
 }.
 
 Definition ntp_port_ip := 123.
